@@ -1,9 +1,7 @@
 (* EngineConcProofs.v — proofs about EngineConc.v (property C06):
-   every trace of the LTS leaves a linearizable history; a successful write takes effect
-   exactly once; a write that reports an error changes nothing a reader can see — and, as
-   long as no attempt saw the log flip to "rotating" between its two status checks, nothing
-   at all. With such a flip the record of a write that then reports an error stays in the log
-   (C06_error_no_effect_refuted): the faithful model refutes the full statement. *)
+   every trace of the LTS leaves a linearizable history, and the log holds exactly the writes
+   of that linearization, once each, in its order; a successful write is one run of
+   Engine.put / Engine.del; a write that reports an error leaves the state as it was. *)
 From Coq Require Import Lia ZifyN ZifyNat ZifyBool Sorted Permutation.
 From KV Require Import Bytes Spec Memtable MemtableProofs WalCodec Engine EngineProofs
   Hist HistProofs EngineConc.
@@ -15,183 +13,84 @@ Ltac proj := cbn [cfg wal_next wal_files last_seq active imms pending flush_pend
                   next_file clock lost_log].
 
 (* ------------------------------------------------------------------------------------ *)
-(* A. The part of EngineProofs.Inv that reads depend on                                   *)
+(* A. The invariant of EngineProofs, for the steps of the concurrent system               *)
 (* ------------------------------------------------------------------------------------ *)
 
-(* h: the writes that took effect, with their sequence numbers. Unlike EngineProofs.Inv this
-   says nothing about the log files: an attempt that fails after its record was buffered
-   (WFlip) leaves a record in the log that is in no memtable. *)
-Record MInv (s : st) (h : hist) : Prop := mkMInv {
-  mi_segs : exists segsI segA,
-      Forall2 layer_ok (imms s) segsI /\
-      mt_entries (active s) = build segA /\
-      concat segsI ++ segA = entries h;
-  mi_sorted : StronglySorted N.lt (map fst h);
-  mi_bound : Forall (fun q => q < wal_next s) (map fst h);
-  mi_active_mut : mt_imm (active s) = false;
-  mi_pending : incl (pending s) (imms s);
-  mi_ssts : Forall (Forall (key_written h)) (map s_entries (ssts s))
-}.
+(* h: the writes that took effect, with their sequence numbers; the engine never set its log
+   aside *)
+Definition EInv (s : st) (h : hist) : Prop := Inv s h /\ lost_log s = false.
 
-Lemma Inv_MInv : forall s h, Inv s h -> lost_log s = false -> MInv s h.
+Lemma EInv_init : forall c, EInv (init c) [].
+Proof. intros c. split; [apply Inv_init|reflexivity]. Qed.
+
+(* reads return the latest write that took effect *)
+Lemma get_einv : forall s h k, EInv s h -> get s k = spec_get (map snd h) k.
+Proof. intros s h k [I Hl]. exact (get_inv s h k I Hl). Qed.
+
+Lemma einv_layer_entries : forall s h m e,
+  EInv s h -> In m (active s :: imms s) -> In e (mt_entries m) -> In e (entries h).
+Proof. intros s h m e [I _]. exact (layer_entries_in_hist s h m e I). Qed.
+
+Lemma EInv_apply_batch : forall s h ops w s' q,
+  EInv s h -> ops <> [] -> effects w = ops -> apply_batch s ops = (s', WrOk q) ->
+  q = wal_next s /\ EInv s' (h ++ [(q, w)]).
 Proof.
-  intros s h I Hl. constructor.
+  intros s h ops w s' q [I Hl] Hne Hw E.
+  destruct (Inv_apply_batch s h ops w s' q I Hne Hw E) as [Hq I']. split; [exact Hq|].
+  split; [exact I'|]. pose proof (lost_log_apply_batch s ops) as L. rewrite E in L. cbn [fst] in L.
+  congruence.
+Qed.
+
+(* rotateWAL: a new, empty log file *)
+Lemma EInv_rotate : forall s h, EInv s h -> EInv (rotate s) h.
+Proof.
+  intros s h [I Hl]. split; [|exact Hl]. constructor; unfold rotate, upd_wal; proj.
   - exact (inv_segs s h I).
   - exact (inv_sorted s h I).
   - exact (inv_bound s h I).
+  - exact (inv_nonempty s h I).
+  - rewrite concat_snoc_nil. exact (inv_wal s h I).
+  - exact (inv_last s h I).
+  - exact (inv_next s h I).
   - exact (inv_active_mut s h I).
   - exact (inv_pending s h I).
-  - exact (inv_ssts s h I Hl).
+  - exact (inv_ssts s h I).
 Qed.
 
-Lemma MInv_init : forall c, MInv (init c) [].
-Proof. intros c. apply Inv_MInv; [apply Inv_init|reflexivity]. Qed.
-
-Lemma minv_layers : forall s h, MInv s h ->
-  exists segs, Forall2 layer_ok (imms s ++ [active s]) segs /\ concat segs = entries h.
+(* FlushMemTables takes the queue *)
+Lemma EInv_clear_pending : forall s h, EInv s h -> EInv (clear_pending s) h.
 Proof.
-  intros s h I. destruct (mi_segs s h I) as (segsI & segA & HF & HA & HC).
-  exists (segsI ++ [segA]). split.
-  - apply Forall2_app; [exact HF|]. constructor; [exact HA|constructor].
-  - rewrite concat_app. cbn [concat]. rewrite app_nil_r. exact HC.
-Qed.
-
-Lemma mems_get_minv : forall s h k, MInv s h ->
-  mems_get k (mem_layers s) = latest (map snd h) k.
-Proof.
-  intros s h k I. destruct (minv_layers s h I) as (segs & HF & HC).
-  rewrite mem_layers_rev, (mems_get_layers k _ segs HF).
-  - rewrite HC, map_eff_entries. reflexivity.
-  - rewrite HC. apply entries_sorted. exact (mi_sorted s h I).
-Qed.
-
-(* reads return the latest write that took effect *)
-Lemma get_minv : forall s h k, MInv s h -> get s k = spec_get (map snd h) k.
-Proof.
-  intros s h k I. unfold get, spec_get. rewrite (mems_get_minv s h k I).
-  destruct (latest (map snd h) k) as [[v|]|] eqn:L; try reflexivity.
-  rewrite ssts_get_none; [reflexivity|].
-  intros l x Hlin Hx Hk.
-  pose proof (mi_ssts s h I) as HS. rewrite Forall_forall in HS.
-  rewrite map_rev in Hlin. apply in_rev in Hlin.
-  specialize (HS l Hlin). rewrite Forall_forall in HS. specialize (HS x Hx).
-  unfold key_written in HS. apply in_map_iff in HS. destruct HS as (e & He & Hin).
-  unfold latest in L. rewrite <- map_eff_entries in L.
-  apply (last_effect_none k _ L (eff e)); [apply in_map; exact Hin|].
-  unfold eff. cbn [fst]. congruence.
-Qed.
-
-Lemma minv_layer_entries : forall s h m e,
-  MInv s h -> In m (active s :: imms s) -> In e (mt_entries m) -> In e (entries h).
-Proof.
-  intros s h m e I Hm He. destruct (mi_segs s h I) as (segsI & segA & HF & HA & HC).
-  rewrite <- HC. apply in_or_app. destruct Hm as [<-|Hm].
-  - right. rewrite HA in He. apply build_in. exact He.
-  - left. destruct (Forall2_in_l _ _ _ _ _ m HF Hm) as (seg & Hseg & Hb).
-    apply in_concat. exists seg. split; [exact Hseg|]. unfold layer_ok in Hb.
-    rewrite Hb in He. apply build_in. exact He.
-Qed.
-
-(* the write proper *)
-Lemma MInv_write : forall s h ops w,
-  MInv s h -> ops <> [] -> effects w = ops ->
-  MInv (write_state s ops) (h ++ [(wal_next s, w)]).
-Proof.
-  intros s h ops w I Hne Hw.
-  pose proof (add_all_spec (wal_next s) ops
-    (upd_wal s (wal_next s + 1)
-       (log_append (wal_files s) (map (bop_entry (wal_next s)) ops)))) as A.
-  cbn zeta in A. fold (write_state s ops) in A.
-  set (s2 := write_state s ops) in *. clearbody s2. unfold upd_wal in A.
-  revert A. proj. intros (A1 & A2 & A3 & A4 & A5 & A6 & A7 & A8 & A9 & A10 & A11).
-  specialize (A11 (mi_active_mut s h I)). destruct A11 as [A11 A12].
-  assert (Hst : stamp (wal_next s, w) = map (bop_mentry (wal_next s)) ops).
-  { unfold stamp. cbn [fst snd]. rewrite Hw. reflexivity. }
-  constructor.
-  - destruct (mi_segs s h I) as (segsI & segA & HF & HA & HC).
-    exists segsI, (segA ++ stamp (wal_next s, w)). rewrite A4. split; [exact HF|]. split.
-    + rewrite A12, HA, Hst. unfold build. rewrite build_from_app. reflexivity.
-    + rewrite app_assoc, HC, entries_app, entries_single. reflexivity.
-  - rewrite map_app. cbn [map fst]. apply SS_app. split; [exact (mi_sorted s h I)|]. split.
-    + repeat constructor.
-    + intros a b Ha [<-|[]]. pose proof (mi_bound s h I) as B. rewrite Forall_forall in B.
-      exact (B a Ha).
-  - rewrite A2, map_app. apply Forall_app. split.
-    + eapply Forall_impl; [|exact (mi_bound s h I)]. cbn beta. intros a Ha. lia.
-    + cbn [map fst]. repeat constructor. lia.
-  - exact A11.
-  - rewrite A4, A5. exact (mi_pending s h I).
-  - rewrite A6. eapply Forall_impl; [|exact (mi_ssts s h I)].
-    intros l Hlf. eapply Forall_impl; [|exact Hlf]. intros x Hx. unfold key_written in *.
-    rewrite entries_app, map_app. apply in_or_app. left. exact Hx.
-Qed.
-
-Lemma MInv_maybe_schedule : forall s h, MInv s h -> MInv (maybe_schedule s) h.
-Proof.
-  intros s h I. unfold maybe_schedule. destruct (flush_pending s); [|exact I].
-  constructor; unfold schedule_flush; proj;
-    try (first [exact (mi_sorted s h I)|exact (mi_bound s h I)|exact (mi_ssts s h I)]).
-  - destruct (mi_segs s h I) as (segsI & segA & HF & HA & HC).
-    exists (segsI ++ [segA]), []. split; [|split].
-    + apply Forall2_app; [exact HF|]. repeat constructor. exact HA.
-    + reflexivity.
-    + rewrite concat_app. cbn [concat]. rewrite !app_nil_r. exact HC.
-  - reflexivity.
-  - apply incl_app.
-    + apply incl_appl. exact (mi_pending s h I).
-    + apply incl_appr. apply incl_refl.
-Qed.
-
-Lemma MInv_apply_batch : forall s h ops w s' q,
-  MInv s h -> ops <> [] -> effects w = ops -> apply_batch s ops = (s', WrOk q) ->
-  q = wal_next s /\ MInv s' (h ++ [(q, w)]).
-Proof.
-  intros s h ops w s' q I Hne Hw E.
-  destruct (MaxSeq <=? wal_next s) eqn:M.
-  - rewrite apply_batch_overflow in E by assumption. discriminate.
-  - rewrite apply_batch_ok in E by assumption. injection E as <- <-.
-    split; [reflexivity|]. apply MInv_maybe_schedule. apply MInv_write; assumption.
-Qed.
-
-(* steps that touch the log only *)
-Lemma MInv_upd_wal : forall s h n f, MInv s h -> wal_next s <= n -> MInv (upd_wal s n f) h.
-Proof.
-  intros s h n f I Hn. constructor; unfold upd_wal; proj.
-  - exact (mi_segs s h I).
-  - exact (mi_sorted s h I).
-  - eapply Forall_impl; [|exact (mi_bound s h I)]. cbn beta. intros a Ha. lia.
-  - exact (mi_active_mut s h I).
-  - exact (mi_pending s h I).
-  - exact (mi_ssts s h I).
-Qed.
-
-Lemma MInv_rotate : forall s h, MInv s h -> MInv (rotate s) h.
-Proof. intros s h I. unfold rotate. apply MInv_upd_wal; [exact I|lia]. Qed.
-
-Lemma MInv_clear_pending : forall s h, MInv s h -> MInv (clear_pending s) h.
-Proof.
-  intros s h I. constructor; unfold clear_pending; proj.
-  - exact (mi_segs s h I).
-  - exact (mi_sorted s h I).
-  - exact (mi_bound s h I).
-  - exact (mi_active_mut s h I).
+  intros s h [I Hl]. split; [|exact Hl]. constructor; unfold clear_pending; proj.
+  - exact (inv_segs s h I).
+  - exact (inv_sorted s h I).
+  - exact (inv_bound s h I).
+  - exact (inv_nonempty s h I).
+  - exact (inv_wal s h I).
+  - exact (inv_last s h I).
+  - exact (inv_next s h I).
+  - exact (inv_active_mut s h I).
   - intros x [].
-  - exact (mi_ssts s h I).
+  - exact (inv_ssts s h I).
 Qed.
 
 (* publishing an SSTable written from entries that are all in the history *)
-Lemma MInv_flush_table : forall s h m,
-  MInv s h -> incl (mt_entries m) (entries h) -> MInv (flush_table s m) h.
+Lemma EInv_flush_table : forall s h m,
+  EInv s h -> incl (mt_entries m) (entries h) -> EInv (flush_table s m) h.
 Proof.
-  intros s h m I Hm.
+  intros s h m [I Hl] Hm.
   destruct (flush_table_spec s m) as (G1 & G2 & G3 & G4 & G5 & G6 & G7 & G8 & G9 & G10).
+  split; [|rewrite G9; exact Hl].
   constructor; rewrite ?G1, ?G2, ?G3, ?G4, ?G5, ?G6, ?G7.
-  - exact (mi_segs s h I).
-  - exact (mi_sorted s h I).
-  - exact (mi_bound s h I).
-  - exact (mi_active_mut s h I).
-  - exact (mi_pending s h I).
-  - rewrite G10. apply Forall_app. split; [exact (mi_ssts s h I)|].
+  - exact (inv_segs s h I).
+  - exact (inv_sorted s h I).
+  - exact (inv_bound s h I).
+  - exact (inv_nonempty s h I).
+  - exact (inv_wal s h I).
+  - exact (inv_last s h I).
+  - exact (inv_next s h I).
+  - exact (inv_active_mut s h I).
+  - exact (inv_pending s h I).
+  - intros _. rewrite G10. apply Forall_app. split; [exact (inv_ssts s h I Hl)|].
     unfold opt_table. destruct (nonnil (flushed_entries m)); [|constructor].
     constructor; [|constructor]. rewrite Forall_forall. intros x Hx.
     apply flushed_entries_in in Hx. destruct Hx as (e & He & ->).
@@ -212,54 +111,32 @@ Proof. intros s [k v|k]; cbn [do_write wop_of effects]; [apply put_as_batch|appl
 Lemma effects_wop_nonnil : forall w, effects (wop_of w) <> [].
 Proof. intros [k v|k]; discriminate. Qed.
 
-Lemma MInv_log_orphan : forall s h w, MInv s h -> MInv (log_orphan s w) h.
-Proof. intros s h w I. unfold log_orphan. apply MInv_upd_wal; [exact I|lia]. Qed.
-
-(* the outcome of the retry loop: acknowledged = exactly this one write took effect;
-   error = no write took effect *)
-Lemma retry_spec : forall n obs w s h s' p,
-  MInv s h -> retry n obs w s = (s', p) ->
-  (p = PAck /\ exists q, MInv s' (h ++ [(q, wop_of w)])) \/ (p = PErr /\ MInv s' h).
-Proof.
-  induction n as [|n IH]; intros obs w s h s' p I E; cbn [retry] in E.
-  - injection E as <- <-. right. split; [reflexivity|exact I].
-  - unfold attempt in E. destruct (hd WActive obs).
-    + (* WActive *)
-      destruct (do_write s w) as [s1 [q|]] eqn:D.
-      * injection E as <- <-. left. split; [reflexivity|]. exists q.
-        rewrite do_write_as_batch in D.
-        destruct (MInv_apply_batch s h _ (wop_of w) s1 q I (effects_wop_nonnil w) eq_refl D)
-          as [_ I']. exact I'.
-      * injection E as <- <-. right. split; [reflexivity|].
-        rewrite do_write_as_batch in D. apply apply_batch_no_effect in D. subst s1. exact I.
-    + (* WRotating *) exact (IH _ _ _ _ _ _ I E).
-    + (* WClosed *) injection E as <- <-. right. split; [reflexivity|exact I].
-    + (* WFlip *)
-      destruct (MaxSeq <=? wal_next s).
-      * injection E as <- <-. right. split; [reflexivity|exact I].
-      * exact (IH _ _ _ _ _ _ (MInv_log_orphan s h w I) E).
-Qed.
-
-(* without a flip the loop either performs the write once or leaves the state untouched *)
-Lemma retry_no_flip : forall n obs w s s' p,
-  ~ In WFlip obs -> retry n obs w s = (s', p) ->
+(* the retry loop either performs the write once or leaves the state untouched *)
+Lemma retry_exact : forall n obs w s s' p,
+  retry n obs w s = (s', p) ->
   (p = PAck /\ exists q, do_write s w = (s', WrOk q)) \/ (p = PErr /\ s' = s).
 Proof.
-  induction n as [|n IH]; intros obs w s s' p Hn E; cbn [retry] in E.
+  induction n as [|n IH]; intros obs w s s' p E; cbn [retry] in E.
   - injection E as <- <-. right. auto.
-  - unfold attempt in E. destruct obs as [|o obs']; cbn [hd tl] in E.
+  - unfold attempt in E. destruct (hd WActive obs).
     + destruct (do_write s w) as [s1 [q|]] eqn:D; injection E as <- <-.
       * left. split; [reflexivity|]. exists q. reflexivity.
       * right. split; [reflexivity|]. rewrite do_write_as_batch in D.
         apply apply_batch_no_effect in D. exact D.
-    + destruct o.
-      * destruct (do_write s w) as [s1 [q|]] eqn:D; injection E as <- <-.
-        -- left. split; [reflexivity|]. exists q. reflexivity.
-        -- right. split; [reflexivity|]. rewrite do_write_as_batch in D.
-           apply apply_batch_no_effect in D. exact D.
-      * apply (IH obs' w s s' p); [|exact E]. intros H. apply Hn. right. exact H.
-      * injection E as <- <-. right. auto.
-      * exfalso. apply Hn. left. reflexivity.
+    + exact (IH _ _ _ _ _ E).
+    + injection E as <- <-. right. auto.
+Qed.
+
+(* in terms of the history of effective writes *)
+Lemma retry_spec : forall n obs w s h s' p,
+  EInv s h -> retry n obs w s = (s', p) ->
+  (p = PAck /\ exists q, EInv s' (h ++ [(q, wop_of w)])) \/ (p = PErr /\ s' = s).
+Proof.
+  intros n obs w s h s' p I E.
+  destruct (retry_exact _ _ _ _ _ _ E) as [[-> (q & D)]|[-> ->]]; [left|right; auto].
+  split; [reflexivity|]. exists q. rewrite do_write_as_batch in D.
+  destruct (EInv_apply_batch s h _ (wop_of w) s' q I (effects_wop_nonnil w) eq_refl D) as [_ I'].
+  exact I'.
 Qed.
 
 (* ------------------------------------------------------------------------------------ *)
@@ -278,39 +155,39 @@ Proof.
 Qed.
 
 Lemma resolve_entries : forall s h q,
-  MInv s h ->
+  EInv s h ->
   match q with QTab m => incl (mt_entries m) (entries h) | QLive _ => True end ->
   incl (mt_entries (resolve s q)) (entries h).
 Proof.
   intros s h [m|g] I Hq; cbn [resolve]; [exact Hq|].
-  intros e He. apply (minv_layer_entries s h (nth g (imms s) (active s)) e I); [|exact He].
+  intros e He. apply (einv_layer_entries s h (nth g (imms s) (active s)) e I); [|exact He].
   destruct (nth_in_or_default g (imms s) (active s)) as [Hin|Heq]; [right; exact Hin|left; symmetry; exact Heq].
 Qed.
 
 Lemma bg_step_inv : forall b s l b' s' h,
-  bg_step b s l = Some (b', s') -> MInv s h -> QInv b h -> MInv s' h /\ QInv b' h.
+  bg_step b s l = Some (b', s') -> EInv s h -> QInv b h -> EInv s' h /\ QInv b' h.
 Proof.
   intros b s l b' s' h E I Q. unfold bg_step in E.
   destruct l, (b_phase b); try discriminate.
   - (* BTake *)
     destruct (pending s) as [|p ps] eqn:P; injection E as <- <-.
     + split; [exact I|constructor].
-    + split; [apply MInv_clear_pending; exact I|].
+    + split; [apply EInv_clear_pending; exact I|].
       unfold QInv. cbn [b_queue]. change (QTab p :: map QTab ps) with (map QTab (p :: ps)).
       rewrite Forall_map. rewrite Forall_forall. intros m Hm e He.
-      apply (minv_layer_entries s h m e I); [|exact He]. right.
-      apply (mi_pending s h I). rewrite P. exact Hm.
+      apply (einv_layer_entries s h m e I); [|exact He]. right.
+      apply (inv_pending s h (proj1 I)). rewrite P. exact Hm.
   - (* BLook *)
     destruct (0 <? mt_size (active s)); injection E as <- <-.
     + split; [exact I|]. repeat constructor.
     + split; [exact I|constructor].
   - (* BRotate *)
-    injection E as <- <-. split; [apply MInv_rotate; exact I|exact Q].
+    injection E as <- <-. split; [apply EInv_rotate; exact I|exact Q].
   - (* BFlushOne *)
     unfold QInv in Q. destruct (b_queue b) as [|q r] eqn:Bq; injection E as <- <-.
     + split; [exact I|constructor].
     + inversion Q as [|? ? Hq Hr]; subst. split.
-      * apply MInv_flush_table; [exact I|]. apply (resolve_entries s h q I Hq).
+      * apply EInv_flush_table; [exact I|]. apply (resolve_entries s h q I Hq).
       * exact Hr.
 Qed.
 
@@ -480,7 +357,7 @@ Proof.
 Qed.
 
 Record CInv (W0 : list wop) (c : cstate) (L : list lent) (h : hist) : Prop := mkCInv {
-  ci_minv : MInv (eng c) h;
+  ci_minv : EInv (eng c) h;
   ci_q : QInv (bg c) h;
   ci_nodup : NoDup (map fst (thr c));
   ci_perm : Permutation L (map LClosed (closed c) ++ map LOpen (done_tids (thr c)));
@@ -511,7 +388,7 @@ Proof.
   destruct (H t (or_introl eq_refl)) as [-> ->]. reflexivity.
 Qed.
 
-Lemma CInv_init : forall s0 h0, MInv s0 h0 -> CInv (map snd h0) (cinit s0) [] h0.
+Lemma CInv_init : forall s0 h0, EInv s0 h0 -> CInv (map snd h0) (cinit s0) [] h0.
 Proof.
   intros s0 h0 I. constructor; unfold cinit; cbn [eng bg thr now closed].
   - exact I.
@@ -526,29 +403,29 @@ Qed.
 (* what a section does to the history of effective writes, and why the record of the call
    fits the specification at this point *)
 Lemma section_spec : forall s h r obs s' p t call,
-  MInv s h -> section s r obs = (s', p) ->
-  exists h', MInv s' h' /\ (h' = h \/ exists x, h' = h ++ [x]) /\
+  EInv s h -> section s r obs = (s', p) ->
+  exists h', EInv s' h' /\ (h' = h \/ exists x, h' = h ++ [x]) /\
     forall ret, if keep p ret
                 then spec_apply (map snd h) (rec_of t call r p ret) = Some (map snd h')
                 else h' = h.
 Proof.
   intros s h r obs s' p t call I E. destruct r as [k v|k|k]; cbn [section] in E.
-  - destruct (retry_spec _ _ _ _ _ _ _ I E) as [[-> (q & I')]|[-> I']].
+  - destruct (retry_spec _ _ _ _ _ _ _ I E) as [[-> (q & I')]|[-> ->]].
     + exists (h ++ [(q, WPut k v)]). split; [exact I'|]. split; [right; eauto|].
       intros [j|]; cbn [keep rec_of]; unfold spec_apply; cbn [o_kind o_res req_kind req_key resp_res o_key];
         rewrite map_app; reflexivity.
-    + exists h. split; [exact I'|]. split; [left; reflexivity|].
+    + exists h. split; [exact I|]. split; [left; reflexivity|].
       intros [j|]; cbn [keep rec_of]; [|reflexivity].
       unfold spec_apply; cbn [o_kind o_res req_kind resp_res]. reflexivity.
-  - destruct (retry_spec _ _ _ _ _ _ _ I E) as [[-> (q & I')]|[-> I']].
+  - destruct (retry_spec _ _ _ _ _ _ _ I E) as [[-> (q & I')]|[-> ->]].
     + exists (h ++ [(q, WDel k)]). split; [exact I'|]. split; [right; eauto|].
       intros [j|]; cbn [keep rec_of]; unfold spec_apply; cbn [o_kind o_res req_kind req_key resp_res o_key];
         rewrite map_app; reflexivity.
-    + exists h. split; [exact I'|]. split; [left; reflexivity|].
+    + exists h. split; [exact I|]. split; [left; reflexivity|].
       intros [j|]; cbn [keep rec_of]; [|reflexivity].
       unfold spec_apply; cbn [o_kind o_res req_kind resp_res]. reflexivity.
   - injection E as <- <-. exists h. split; [exact I|]. split; [left; reflexivity|].
-    rewrite (get_minv s h k I).
+    rewrite (get_einv s h k I).
     intros [j|]; destruct (spec_get (map snd h) k) as [v|] eqn:G; cbn [keep]; try reflexivity;
       unfold spec_apply, rec_of; cbn [o_kind o_res req_kind req_key resp_res o_key]; rewrite G; cbn [obeq].
     + rewrite beq_refl. reflexivity.
@@ -753,29 +630,47 @@ Proof.
   destruct p; reflexivity.
 Qed.
 
-(* every run of the system, started in a state whose reads are described by the write
-   history h0, leaves a history that is linearizable with respect to Spec.v *)
-Theorem lts_linearizable : forall s0 h0 tr c,
-  MInv s0 h0 -> crun (cinit s0) tr = Some c -> linearizable (map snd h0) (history_of c).
+(* every run of the system, started in a state described by the write history h0, leaves a
+   history that is linearizable with respect to Spec.v; moreover the log holds, stamped with
+   strictly increasing sequence numbers, exactly the writes that the linearization applies,
+   in its order, once each *)
+Theorem lts_linearizable_log : forall s0 h0 tr c,
+  EInv s0 h0 -> crun (cinit s0) tr = Some c ->
+  exists l h,
+    linearization _ spec_apply (map snd h0) (history_of c) l /\
+    run_spec (map snd h0) l = Some (map snd h) /\
+    concat (wal_files (eng c)) = wentries h /\ StronglySorted N.lt (map fst h) /\
+    forall k, get (eng c) k = spec_get (map snd h) k.
 Proof.
   intros s0 h0 tr c I E.
   destruct (CInv_run _ _ _ _ _ _ (CInv_init s0 h0 I) E) as (L & h & CI).
   set (fut0 := fun _ : N => @None N).
   destruct (ci_lin _ _ _ _ CI fut0) as (R & S & _); [intros t r H; discriminate|].
-  exists (asmL (thr c) fut0 L). split; [|split].
-  - exists (flat_map (fun x => if kept_thread x then [] else [pending_rec x]) (thr c)). split.
-    + unfold history_of, asmL.
-      eapply Permutation_trans.
-      2:{ apply Permutation_app_tail. apply Permutation_sym.
-          apply Permutation_flat_map. exact (ci_perm _ _ _ _ CI). }
-      rewrite flat_map_app, asm_closed. subst fut0.
-      rewrite (asm_open (thr c) (ci_nodup _ _ _ _ CI) (thr c) (incl_refl _)).
-      rewrite <- app_assoc. apply Permutation_app_head. apply map_split_perm.
-    + rewrite Forall_forall. intros o Ho. apply in_flat_map in Ho. destruct Ho as (x & _ & Hx).
-      destruct (kept_thread x); [contradiction|]. destruct Hx as [<-|[]].
-      unfold pending_rec. destruct (snd x); reflexivity.
-  - exact R.
-  - exact (run_spec_legal _ _ _ S).
+  exists (asmL (thr c) fut0 L), h. split; [|split; [exact S|split; [|split]]].
+  - split; [|split].
+    + exists (flat_map (fun x => if kept_thread x then [] else [pending_rec x]) (thr c)). split.
+      * unfold history_of, asmL.
+        eapply Permutation_trans.
+        2:{ apply Permutation_app_tail. apply Permutation_sym.
+            apply Permutation_flat_map. exact (ci_perm _ _ _ _ CI). }
+        rewrite flat_map_app, asm_closed. subst fut0.
+        rewrite (asm_open (thr c) (ci_nodup _ _ _ _ CI) (thr c) (incl_refl _)).
+        rewrite <- app_assoc. apply Permutation_app_head. apply map_split_perm.
+      * rewrite Forall_forall. intros o Ho. apply in_flat_map in Ho. destruct Ho as (x & _ & Hx).
+        destruct (kept_thread x); [contradiction|]. destruct Hx as [<-|[]].
+        unfold pending_rec. destruct (snd x); reflexivity.
+    + exact R.
+    + exact (run_spec_legal _ _ _ S).
+  - exact (inv_wal _ _ (proj1 (ci_minv _ _ _ _ CI))).
+  - exact (inv_sorted _ _ (proj1 (ci_minv _ _ _ _ CI))).
+  - intros k. exact (get_einv _ _ k (ci_minv _ _ _ _ CI)).
+Qed.
+
+Theorem lts_linearizable : forall s0 h0 tr c,
+  EInv s0 h0 -> crun (cinit s0) tr = Some c -> linearizable (map snd h0) (history_of c).
+Proof.
+  intros s0 h0 tr c I E.
+  destruct (lts_linearizable_log s0 h0 tr c I E) as (l & h & Lin & _). exists l. exact Lin.
 Qed.
 
 (* C06, first clause, for a database that starts empty *)
@@ -783,7 +678,7 @@ Theorem C06_linearizable : forall cf tr,
   lts_trace (init cf) tr -> linearizable [] (history (init cf) tr).
 Proof.
   intros cf tr (c & E). unfold history. rewrite E.
-  exact (lts_linearizable (init cf) [] tr c (MInv_init cf) E).
+  exact (lts_linearizable (init cf) [] tr c (EInv_init cf) E).
 Qed.
 
 (* ... and for one that was opened on existing data (any state the sequential model reaches
@@ -793,10 +688,24 @@ Theorem C06_linearizable_reachable : forall s0 tr,
   exists w0, (forall k, get s0 k = spec_get w0 k) /\ linearizable w0 (history s0 tr).
 Proof.
   intros s0 tr R Hl (c & E). destruct (reachable_Inv s0 R) as (h0 & I).
-  pose proof (Inv_MInv s0 h0 I Hl) as MI.
+  assert (MI : EInv s0 h0) by (split; assumption).
   exists (map snd h0). split.
-  - intros k. exact (get_minv s0 h0 k MI).
+  - intros k. exact (get_einv s0 h0 k MI).
   - unfold history. rewrite E. exact (lts_linearizable s0 h0 tr c MI E).
+Qed.
+
+(* the log after any run from an empty database: one stamped record per write of a
+   linearization of the run's history, nothing else *)
+Theorem C06_log_exactly_once : forall cf tr c,
+  crun (cinit (init cf)) tr = Some c ->
+  exists l h,
+    linearization _ spec_apply [] (history_of c) l /\
+    run_spec [] l = Some (map snd h) /\
+    concat (wal_files (eng c)) = wentries h /\ StronglySorted N.lt (map fst h).
+Proof.
+  intros cf tr c E.
+  destruct (lts_linearizable_log (init cf) [] tr c (EInv_init cf) E) as (l & h & A & B & C & D & _).
+  exists l, h. auto.
 Qed.
 
 (* ---------- second clause: success = exactly once, error = no effect ---------- *)
@@ -817,11 +726,19 @@ Proof.
   destruct (last_effect k (effects x)) as [[v|]|]; reflexivity.
 Qed.
 
-(* an acknowledged write is, for every reader that comes later, exactly one write: the
-   history of effective writes grows by this write and nothing else *)
+(* an acknowledged write is exactly one run of Engine.put / Engine.del, for every sequence
+   of observations: the attempts before the successful one changed nothing *)
+Theorem C06_ack_is_one_write : forall s w obs s',
+  retry max_retries obs w s = (s', PAck) -> exists q, do_write s w = (s', WrOk q).
+Proof.
+  intros s w obs s' E.
+  destruct (retry_exact _ _ _ _ _ _ E) as [[_ H]|[D _]]; [exact H|discriminate].
+Qed.
+
+(* ... so the history of effective writes, and with it the log, grows by this write only *)
 Theorem C06_ack_exactly_once : forall s h r obs s',
-  MInv s h -> section s r obs = (s', PAck) ->
-  exists q w, MInv s' (h ++ [(q, w)]) /\
+  EInv s h -> section s r obs = (s', PAck) ->
+  exists q w, EInv s' (h ++ [(q, w)]) /\
     match r with CPut k v => w = WPut k v | CDel k => w = WDel k | CGet _ => False end.
 Proof.
   intros s h r obs s' I E. destruct r as [k v|k|k]; cbn [section] in E.
@@ -833,89 +750,77 @@ Proof.
 Qed.
 
 Corollary C06_ack_put_visible : forall s h k v obs s' k',
-  MInv s h -> section s (CPut k v) obs = (s', PAck) ->
+  EInv s h -> section s (CPut k v) obs = (s', PAck) ->
   get s' k' = if beq k k' then Some v else get s k'.
 Proof.
   intros s h k v obs s' k' I E.
   destruct (C06_ack_exactly_once s h _ obs s' I E) as (q & w & I' & ->).
-  rewrite (get_minv s' _ k' I'), (get_minv s h k' I), map_app. cbn [map snd].
+  rewrite (get_einv s' _ k' I'), (get_einv s h k' I), map_app. cbn [map snd].
   rewrite spec_get_snoc. cbn [effects last_effect]. destruct (beq k k'); reflexivity.
 Qed.
 
 Corollary C06_ack_delete_visible : forall s h k obs s' k',
-  MInv s h -> section s (CDel k) obs = (s', PAck) ->
+  EInv s h -> section s (CDel k) obs = (s', PAck) ->
   get s' k' = if beq k k' then None else get s k'.
 Proof.
   intros s h k obs s' k' I E.
   destruct (C06_ack_exactly_once s h _ obs s' I E) as (q & w & I' & ->).
-  rewrite (get_minv s' _ k' I'), (get_minv s h k' I), map_app. cbn [map snd].
+  rewrite (get_einv s' _ k' I'), (get_einv s h k' I), map_app. cbn [map snd].
   rewrite spec_get_snoc. cbn [effects last_effect]. destruct (beq k k'); reflexivity.
 Qed.
 
-(* a write that reports an error changes no read (and the state still satisfies the
-   invariant with the same history: later operations behave as if it had not happened) *)
-Theorem C06_error_invisible : forall s h r obs s',
-  MInv s h -> section s r obs = (s', PErr) ->
-  MInv s' h /\ forall k, get s' k = get s k.
+(* a write that reports an error — the log still rotating after the last attempt, a log
+   object that was closed under the writer's feet, sequence numbers exhausted — leaves the
+   state, log included, exactly as it was *)
+Theorem C06_error_no_effect : forall s r obs s',
+  section s r obs = (s', PErr) -> s' = s.
 Proof.
-  intros s h r obs s' I E.
-  assert (I' : MInv s' h).
-  { destruct r as [k v|k|k]; cbn [section] in E.
-    - destruct (retry_spec _ _ _ _ _ _ _ I E) as [[D _]|[_ I']]; [discriminate|exact I'].
-    - destruct (retry_spec _ _ _ _ _ _ _ I E) as [[D _]|[_ I']]; [discriminate|exact I'].
-    - destruct (get s k); discriminate. }
-  split; [exact I'|]. intros k. rewrite (get_minv s' h k I'), (get_minv s h k I). reflexivity.
-Qed.
-
-(* the full statement of the design: an errored write leaves the state — the log included —
-   as it was *)
-Definition C06_error_no_effect_statement : Prop :=
-  forall s r obs s', section s r obs = (s', PErr) -> s' = s.
-
-(* it holds when no attempt saw the log turn "rotating" between Append's two status checks *)
-Theorem C06_error_no_effect_partial : forall s r obs s',
-  ~ In WFlip obs -> section s r obs = (s', PErr) -> s' = s.
-Proof.
-  intros s r obs s' Hn E. destruct r as [k v|k|k]; cbn [section] in E.
-  - destruct (retry_no_flip _ _ _ _ _ _ Hn E) as [[D _]|[_ H]]; [discriminate|exact H].
-  - destruct (retry_no_flip _ _ _ _ _ _ Hn E) as [[D _]|[_ H]]; [discriminate|exact H].
+  intros s r obs s' E. destruct r as [k v|k|k]; cbn [section] in E.
+  - destruct (retry_exact _ _ _ _ _ _ E) as [[D _]|[_ H]]; [discriminate|exact H].
+  - destruct (retry_exact _ _ _ _ _ _ E) as [[D _]|[_ H]]; [discriminate|exact H].
   - destruct (get s k); discriminate.
 Qed.
 
-(* and without a flip an acknowledged write is literally one run of Engine.put / Engine.del *)
-Theorem C06_ack_is_one_write : forall s w obs s',
-  ~ In WFlip obs -> retry max_retries obs w s = (s', PAck) -> exists q, do_write s w = (s', WrOk q).
-Proof.
-  intros s w obs s' Hn E.
-  destruct (retry_no_flip _ _ _ _ _ _ Hn E) as [[_ H]|[D _]]; [exact H|discriminate].
-Qed.
-
-(* the faithful model refutes the full statement: the first attempt's record is buffered,
-   rotateWAL marks the log before the sync behind it re-reads the status, the remaining
-   attempts find the log rotating. The call reports an error; the record is in the log and
-   the write appears after the next restart. *)
-Module Refute.
-  Definition cf := mkCfg 1000 10.
+(* ---------- the defect this check found in the code before commit 702abac ---------- *)
+(* WAL.Append used to re-read the status flag in the sync behind the buffered record
+   (syncLocked). rotateWAL's SetRotating is an atomic store that does not take the WAL
+   mutex, so it could land between the two reads: Append returned ErrWALRotating although the
+   record was in the log and the sequence number spent. The model of that code: a fourth
+   observation. With it the statement above is false — the write that reports an error is
+   replayed at the next start (corpus/C06/flip-orphan.case replays this on the real engine:
+   it fails on the tree before the fix and passes after it). *)
+Module Before702abac.
+  Inductive wstat' := Obs (o : wstat) | WFlip.
+  Definition wreq_entry (w : wreq) (q : N) : wentry :=
+    match w with WPutReq k v => mkW OpPut q k v | WDelReq k => mkW OpDel q k [] end.
+  Definition log_orphan (s : st) (w : wreq) : st :=
+    upd_wal s (wal_next s + 1) (log_append (wal_files s) [wreq_entry w (wal_next s)]).
+  Definition attempt' (w : wreq) (o : wstat') (s : st) : attempt_res :=
+    match o with
+    | Obs o => attempt w o s
+    | WFlip => if MaxSeq <=? wal_next s then AFail s else ARetry (log_orphan s w)
+    end.
+  Fixpoint retry' (n : nat) (obs : list wstat') (w : wreq) (s : st) : st * cresp :=
+    match n with
+    | O => (s, PErr)
+    | S n' =>
+      match attempt' w (hd (Obs WActive) obs) s with
+      | AOk s' => (s', PAck)
+      | AFail s' => (s', PErr)
+      | ARetry s' => retry' n' (tl obs) w s'
+      end
+    end.
   Definition k : bytes := [107]. Definition v : bytes := [118].
-  Definition obs := [WFlip; WRotating; WRotating].
-  Definition s0 := init cf.
-  Definition s1 := fst (section s0 (CPut k v) obs).
-End Refute.
+  Definition obs := [WFlip; Obs WRotating; Obs WRotating].
+  Definition s0 := init (mkCfg 1000 10).
+  Definition s1 := fst (retry' max_retries obs (WPutReq k v) s0).
 
-Theorem C06_error_no_effect_refuted : exists s k v obs s',
-  section s (CPut k v) obs = (s', PErr) /\
-  concat (wal_files s) = [] /\ concat (wal_files s') = [mkW OpPut 1 k v] /\
-  get s k = None /\ get s' k = None /\ get (reopen s') k = Some v.
-Proof.
-  exists Refute.s0, Refute.k, Refute.v, Refute.obs, Refute.s1.
-  vm_compute. repeat split; reflexivity.
-Qed.
-
-Corollary C06_error_no_effect_statement_false : ~ C06_error_no_effect_statement.
-Proof.
-  intros H. destruct C06_error_no_effect_refuted as (s & k & v & obs & s' & E & W & W' & _).
-  apply H in E. subst s'. rewrite W in W'. discriminate.
-Qed.
+  Theorem error_no_effect_refuted :
+    retry' max_retries obs (WPutReq k v) s0 = (s1, PErr) /\
+    concat (wal_files s0) = [] /\ concat (wal_files s1) = [mkW OpPut 1 k v] /\
+    get s0 k = None /\ get s1 k = None /\ get (reopen s1) k = Some v.
+  Proof. vm_compute. repeat split; reflexivity. Qed.
+End Before702abac.
 
 (* ---------- non-vacuity ---------- *)
 Module ConcExamples.
@@ -923,28 +828,37 @@ Module ConcExamples.
   Definition ka : bytes := [97]. Definition kb : bytes := [98].
   Definition v (n : N) : bytes := [n; n; n; n; n; n; n; n].
   (* three clients, the flusher running through two rounds (one of them on the live active
-     table), a write that gives up after three attempts, one that flips and then succeeds, a
-     call that never returns *)
+     table), a write that gives up after three attempts, one that meets a closed log, one
+     that succeeds on its second attempt, a call that never returns *)
   Definition tr : list label :=
     [LInv 1 (CPut ka (v 1)); LInv 2 (CGet ka); LSec 1 []; LSec 2 []; LRes 2; LRes 1;
-     LInv 1 (CPut kb (v 2)); LBg BTake; LBg BLook; LSec 1 [WFlip]; LInv 2 (CPut ka (v 3));
+     LInv 1 (CPut kb (v 2)); LBg BTake; LBg BLook; LSec 1 [WRotating]; LInv 2 (CPut ka (v 3));
      LBg BRotate; LSec 2 [WRotating; WRotating; WRotating]; LRes 2; LRes 1;
      LInv 3 (CDel kb); LInv 2 (CGet ka); LBg BFlushOne; LSec 2 []; LSec 3 []; LRes 2;
      LInv 2 (CPut ka (v 4)); LSec 2 []; LRes 2; LBg BTake; LBg BRotate; LInv 1 (CGet kb);
-     LBg BFlushOne; LSec 1 []; LRes 1; LInv 1 (CPut kb (v 5)); LSec 1 []].
+     LBg BFlushOne; LSec 1 []; LRes 1; LInv 1 (CPut kb (v 5)); LSec 1 [];
+     LInv 2 (CDel ka); LSec 2 [WRotating; WClosed]; LRes 2].
   Example tr_runs : lts_trace (init cf) tr.
   Proof. unfold lts_trace. vm_compute. eexists. reflexivity. Qed.
   Example tr_history :
     map (fun o => (o_tid o, o_res o, o_call o, o_ret o)) (history (init cf) tr) =
     [(2, RVal (v 1), 1, 4); (1, ROk, 0, 5); (2, RFail, 10, 13); (1, ROk, 6, 14);
-     (2, RVal (v 1), 16, 20); (2, ROk, 21, 23); (1, RNotFound, 26, 29);
+     (2, RVal (v 1), 16, 20); (2, ROk, 21, 23); (1, RNotFound, 26, 29); (2, RFail, 32, 34);
      (1, RPending, 30, 0); (3, RPending, 15, 0)].
   Proof. vm_compute. reflexivity. Qed.
-  Example tr_tables : length (ssts (eng (match crun (cinit (init cf)) tr with Some c => c | None => cinit (init cf) end))) = 2%nat.
+  Definition final := match crun (cinit (init cf)) tr with Some c => c | None => cinit (init cf) end.
+  Example tr_tables : length (ssts (eng final)) = 2%nat.
+  Proof. vm_compute. reflexivity. Qed.
+  (* the log: the five writes that took effect, none of the two that failed *)
+  Example tr_log : map (fun e => (w_seq e, w_key e)) (concat (wal_files (eng final))) =
+                   [(1, ka); (2, kb); (3, kb); (4, ka); (5, kb)].
   Proof. vm_compute. reflexivity. Qed.
   Example tr_linearizable : linearizable [] (history (init cf) tr).
   Proof. exact (C06_linearizable cf tr tr_runs). Qed.
   (* the extracted checker agrees on this history *)
   Example tr_checked : lin_check 10000 (history (init cf) tr) = true.
   Proof. vm_compute. reflexivity. Qed.
+  (* an errored write changes nothing: the state after the failed section is the state before *)
+  Example failed_section : forall s, section s (CPut ka (v 9)) [WRotating; WRotating; WRotating] = (s, PErr).
+  Proof. intros s. reflexivity. Qed.
 End ConcExamples.
